@@ -111,7 +111,9 @@ pub fn run_backend(backend: u8, run: &RunCfg, case: u64, stop_after: Option<usiz
         4 | 5 => { // Zarr sync, store_warmup on / off: finalised store + metadata
             let sw = backend == 4;
             let store = Arc::new(zarrs::storage::store::MemoryStore::new());
-            let d = drive(run, ZarrConfig::new(store.clone()).with_chunk_size(7).store_warmup(sw), &mut NoProbe, stop_after);
+            // small chunks so that event (string) arrays span several chunks with a partial last one
+            let chunk = [2u64, 3, 5, 7][(case / 7 % 4) as usize];
+            let d = drive(run, ZarrConfig::new(store.clone()).with_chunk_size(chunk).store_warmup(sw), &mut NoProbe, stop_after);
             if let Some(e) = d.error { return Some(("zarr.error".into(), e)); }
             if let Err(e) = zarr_check(store.clone(), &d.recs, run.chain, true, !sw) { return Some(("zarr.values".into(), e)); }
             // event arrays are trimmed to the number of events
